@@ -158,6 +158,9 @@ async fn inject(ix: usize, f: &Fault, held: &mut Held) {
             let mut fl = gen_flow(&mut g, 100 + ix, LocalHs::Socks5Domain, Ending::None, 500);
             fl.target_fault = Some(fault.clone());
             fl.start_ms = 0;
+            if fault == "blackhole" {
+                fl.target_port = 41_000 + ix as u16;
+            }
             if fault == "unresolvable" {
                 fl.target_name = Some(format!("nx{ix}.c08.test"));
             } else if let Some(n) = &fl.target_name {
